@@ -408,7 +408,22 @@ class Interp:
                 ntrace = len(self.oracle.trace)
                 fr = Frame(None, m2, {})
                 self.stack.append(fr)
-                v = self.eval(value_node, fr)
+                try:
+                    v = self.eval(value_node, fr)
+                except AnalysisError:
+                    # import-time code runs as the package runs it: retry without the summaries / hooks of the analysis in
+                    # progress (a table built by a helper that the analysis models abstractly)
+                    hooks = {k: getattr(self, k) for k in ("summaries", "loop_hooks", "while_hooks") if getattr(self, k, None)}
+                    if not hooks:
+                        raise
+                    try:
+                        for k, hv in hooks.items():
+                            setattr(self, k, type(hv)())
+                        self.stack = [fr]
+                        v = self.eval(value_node, fr)
+                    finally:
+                        for k, hv in hooks.items():
+                            setattr(self, k, hv)
                 if len(self.oracle.trace) != ntrace:
                     raise AnalysisError(f"module-level constant {m2.name}.{name} depends on a symbolic decision")
                 self.stack, _ = saved
@@ -1203,6 +1218,7 @@ class Interp:
         if st.orelse:
             raise AnalysisError(f"{self.where(st)}: while/else outside the fragment")
         n = 0
+        nsym = 0
         while True:
             c = self.eval(st.test, fr)
             if is_sym(c) or (isinstance(c, Instance)):
@@ -1212,8 +1228,15 @@ class Interp:
             n += 1
             if n > 200000:
                 raise AnalysisError(f"{self.where(st)}: while loop does not terminate within bound")
+            ntr = len(self.oracle.trace)
+            if nsym > 24:
+                # `while True:` (or a concrete test) whose rounds keep branching on symbolic values: the exit depends on the
+                # input and there is no invariant rule — unrolling it would never end
+                raise AnalysisError(f"{self.where(st)}: loop that keeps branching on symbolic values with no invariant rule")
             try:
                 self.exec_block(st.body, fr)
+                if len(self.oracle.trace) != ntr:
+                    nsym += 1
             except _Break:
                 break
             except _Continue:
@@ -1435,6 +1458,10 @@ class Interp:
         if sa in ("int", "bool", "any") and sb in ("int", "bool", "any"):
             if op == "truediv":
                 return Term("truediv", (a, b), "float")
+            if op == "mod" and b == 2 and not isinstance(b, bool) and isinstance(a, Term) and a.op == "xor" and sa == "int":
+                # parity of a ^ b is parity(a) ^ parity(b)
+                return self.term_binop("xor", self.term_binop("mod", a.args[0], 2, node) if is_sym(a.args[0]) else a.args[0] % 2,
+                                       self.term_binop("mod", a.args[1], 2, node) if is_sym(a.args[1]) else a.args[1] % 2, node)
             if op == "and" and sa == "int" and sb == "int":
                 # x & (2^k − 1) = x mod 2^k for every Python int (negative ones too): one normal form for both spellings
                 for x_, m_ in ((a, b), (b, a)):
